@@ -15,7 +15,7 @@ theorem contains_iff (c : Nat) (s : Bytes) : s.contains c = true ↔ c ∈ s := 
     non-empty content of the file -/
 theorem cmdlineSplit_eq_args (data : Bytes) : cmdlineSplit good data = args data := by
   unfold cmdlineSplit args
-  simp only [good]
+  simp only [good, if_true]
   by_cases h0 : data.getLast? = some 0
   · have hl : lastIs 0 data = true := (lastIs_iff 0 data).2 h0
     simp only [hl, if_true, h0]
